@@ -131,6 +131,7 @@ func NewTypeProg(seed int64, idx int, r *rand.Rand, opts TypeOpts) *Program {
 	}
 	g.makeOtherFileNoise()
 	g.shuffleDecls()
+	p.CollectStyles()
 	return p
 }
 
